@@ -121,6 +121,35 @@ impl Prop for C06 {
     }
 }
 
+/// What the sentence *declares* on the wire: (fragment count, fragment number, sequence id), read
+/// by the lexer that follows the property's words (comma-separated fields between the delimiter
+/// and the first '*'). The numbers are compared by value ("03" is 3). `None` when the line is not
+/// of that plain shape; the oracle then falls back to the header the parser reports.
+fn wire_hdr(line: &[u8]) -> Option<(u8, u8, Option<u8>)> {
+    let lx = lex(line)?;
+    if lx.fields.len() != 7 {
+        return None;
+    }
+    let num = |f: &[u8]| -> Option<u8> {
+        if f.is_empty() || f.len() > 30 || !f.iter().all(|b| b.is_ascii_digit()) {
+            return None;
+        }
+        let mut v: u32 = 0;
+        for &b in f {
+            v = v * 10 + (b - b'0') as u32;
+            if v > 255 {
+                return None;
+            }
+        }
+        Some(v as u8)
+    };
+    let n = num(lx.field(line, 1)?)?;
+    let k = num(lx.field(line, 2)?)?;
+    let idf = lx.field(line, 3)?;
+    let id = if idf.is_empty() { None } else { Some(num(idf)?) };
+    Some((n, k, id))
+}
+
 struct Chain {
     /// (k, id, own payload) of the accepted fragments since the opener
     items: Vec<(u8, Option<u8>, Vec<u8>)>,
@@ -167,6 +196,33 @@ fn judge_build(sc: &Scenario, build: Build, st: &mut Option<&mut Stats>) -> Opti
                 Outcome::Complete(s, _) | Outcome::Incomplete(s, _) => s,
             };
             let complete = matches!(out, Outcome::Complete(..));
+            // The statement speaks of what a sentence *declares*: count, number and sequence id
+            // are taken from the line itself wherever its shape is plain, not from the header
+            // the parser reports back (a parser that folds or rewrites an id on the way in would
+            // otherwise vouch for itself). Payloads and acceptance still come from the results.
+            let reported = (s.n, s.k, s.id);
+            let declared = wire_hdr(&l.bytes);
+            if let Some(st) = stg.as_deref_mut() {
+                match declared {
+                    Some(d) if d != reported => st.probe("accepted line: reported header differs from the declared one (declared one is used)"),
+                    Some(_) => st.probe("accepted line: header taken from the wire"),
+                    None => st.probe("accepted line: shape not plain, reported header used"),
+                }
+            }
+            let (dn, dk, did) = declared.unwrap_or(reported);
+            struct Hd {
+                n: u8,
+                k: u8,
+                id: Option<u8>,
+                data: Vec<u8>,
+            }
+            // likewise the fragment's own payload: field 5 of the line where the shape is plain
+            // (the Complete of a group reports the concatenation; its own part is read below)
+            let own_payload: Option<Vec<u8>> = lex(&l.bytes)
+                .filter(|lx| lx.fields.len() == 7)
+                .and_then(|lx| lx.field(&l.bytes, 5).map(|f| f.to_vec()));
+            let data = if complete { s.data.clone() } else { own_payload.unwrap_or_else(|| s.data.clone()) };
+            let s = Hd { n: dn, k: dk, id: did, data };
             if s.n == 1 {
                 // unfragmented: not a member of any group
                 return true;
